@@ -653,6 +653,111 @@ def run_greenlet(ck, rng):
   ck.extra_cov['greenlet_in_cycle'] = {'specs': n, 'flows': ['default', 'mamba', 'openloop'], 'variants': ['cyclic', 'acyclic twin']}
 
 # ---------------------------------------------------------------------------------------------
+# divergent loop whose watched signals live in >= 2 host components, entered from a stable evaluation (history): a period-2
+# oscillator (y = ~x ; x = y | fb | hold) coupled through a mux-style false path (sel) to 1-2 pass-through children.  First
+# evaluation(s): hold = all ones (stable); last evaluation: hold = 0, sel = 0, k != 0 - the children's signals change once and
+# settle, x / y toggle for ever: UpblkCyclicError is due.  Each design is built several times per flow (the order in which the
+# hosts are compared follows set order).
+# ---------------------------------------------------------------------------------------------
+def ho_spec(rng):
+  w = rng.randint(1, 4)
+  m = (1 << w) - 1
+  steps = [{'hold': m, 'k': 0, 'sel': rng.choice([0, m])} for _ in range(rng.randint(1, 2))]
+  steps.append({'hold': 0, 'k': rng.choice([1, m, rng.randint(1, m)]), 'sel': 0})
+  return {'w': w, 'children': rng.randint(1, 2), 'layout': rng.choice(['top-osc', 'top-osc', 'child-osc']), 'order': rng.random(), 'steps': steps}
+
+def ho_source(spec, name):
+  w, nc = spec['w'], spec['children']
+  T = f'Bits{w}'
+  L = ['from pymtl3 import *', f'class {name}_Thru( Component ):', '  def construct( s ):', f'    s.in_ = InPort( {T} )', f'    s.out = OutPort( {T} )',
+       '    @update', '    def up_child():', '      s.out @= s.in_', '']
+  if spec['layout'] == 'child-osc':
+    L += [f'class {name}_Osc( Component ):', '  def construct( s ):', f'    s.fb = InPort( {T} )', f'    s.hold = InPort( {T} )', f'    s.y = OutPort( {T} )', f'    s.x = Wire( {T} )',
+          '    @update', '    def up_inv():', '      s.y @= ~s.x', '    @update', '    def up_back():', '      s.x @= s.y | s.fb | s.hold', '']
+  L += [f'class {name}( Component ):', '  def construct( s ):', f'    s.sel = InPort( {T} )', f'    s.k = InPort( {T} )', f'    s.hold = InPort( {T} )']
+  L += [f'    s.c{j} = {name}_Thru()' for j in range(nc)]
+  last = f's.c{nc - 1}.out'
+  blocks = []
+  if spec['layout'] == 'top-osc':
+    L += [f'    s.x = Wire( {T} )', f'    s.y = Wire( {T} )']
+    y = 's.y'
+    blocks.append(['    @update', '    def up_inv():', '      s.y @= ~s.x'])
+    blocks.append(['    @update', '    def up_back():', f'      s.x @= s.y | ( {last} & s.sel ) | s.hold'])
+  else:
+    L += [f'    s.o = {name}_Osc()']
+    y = 's.o.y'
+    blocks.append(['    @update', '    def up_fb():', f'      s.o.fb @= {last} & s.sel'])
+    blocks.append(['    @update', '    def up_hold():', '      s.o.hold @= s.hold'])
+  blocks.append(['    @update', '    def up_drive0():', f'      s.c0.in_ @= s.k | ( {y} & s.sel )'])
+  for j in range(1, nc):
+    blocks.append(['    @update', f'    def up_drive{j}():', f'      s.c{j}.in_ @= s.c{j - 1}.out | ( {y} & s.sel )'])
+  _random.Random(spec['order']).shuffle(blocks)
+  for b in blocks: L += b
+  return '\n'.join(L) + '\n'
+
+def ho_signals(spec):
+  sig = ['x', 'y'] if spec['layout'] == 'top-osc' else ['o.x', 'o.y', 'o.fb', 'o.hold']
+  for j in range(spec['children']): sig += [f'c{j}.in_', f'c{j}.out']
+  return sig
+
+def ho_case(ck, case, cls=None, verbose=False):
+  from pymtl3.dsl.errors import UpblkCyclicError
+  from pymtl3.passes.PassGroups import DefaultPassGroup
+  from pymtl3.passes.mamba.PassGroups import Mamba2020
+  spec, flow = case['spec'], case['flow']
+  if cls is None: cls, _ = load_text(ck.workdir, case['source'], case['cls'])
+  sig = {'flow': flow, 'family': 'host-oscillator'}
+  rtlgen.quiet_dump_dag()
+  try:
+    top = cls(); top.elaborate()
+    top.apply(DefaultPassGroup() if flow == 'default' else Mamba2020(print_line_trace=False))
+  except Exception as e:
+    ck.violation('pass-group-failed-on-cyclic-design', dict(sig, error=type(e).__name__), case, {'error': f'{type(e).__name__}: {str(e)[:300]}'}); return 'failed'
+  names = ho_signals(spec)
+  snap = lambda: [int(rtlgen.resolve_path(top, p)) for p in names]
+  blks = [b for b in top._dag.final_upblks if b not in top.get_all_update_ff()]
+  for i, st in enumerate(spec['steps']):
+    last = i == len(spec['steps']) - 1
+    top.sel @= st['sel']; top.k @= st['k']; top.hold @= st['hold']
+    try:
+      top.sim_eval_combinational()
+    except UpblkCyclicError:
+      if verbose: print(f'{flow} step {i}: UpblkCyclicError')
+      if not last:
+        ck.violation('convergent-loop-rejected', sig, dict(case, steps_done=i + 1), {'step': st, 'oracle': 'hold = all ones forces x: a stable assignment exists'}); return 'rejected'
+      return 'UpblkCyclicError'
+    v = snap()
+    if verbose: print(f'{flow} step {i}: {st} -> {dict(zip(names, v))}')
+    moved = None
+    for blk in blks:
+      blk()
+      if snap() != v: moved = {'block': blk.__name__, 'before': v, 'after': snap(), 'signals': names, 'step': st}; break
+    if moved:
+      ck.violation('returned-unstable-state', sig, dict(case, steps_done=i + 1),
+                   dict(moved, oracle='after sim_eval_combinational returned, re-running an update block changes nothing' + (' (no stable assignment exists for this step: UpblkCyclicError was due)' if last else '')))
+      return 'unstable'
+    if last:
+      ck.violation('divergent-loop-not-reported', sig, case, {'values': dict(zip(names, v)), 'oracle': 'x = ~x has no stable assignment: UpblkCyclicError must be raised'})
+      return 'returned'
+  return 'ok'
+
+def run_hostosc(ck):
+  rng = _random.Random(f'{ck.seed}:C11:{ck.tier}:hostosc')
+  nspec, ninst = (8, 10) if ck.tier == 'quick' else (60, 12)
+  for _ in range(nspec):
+    spec = ho_spec(rng)
+    _mods[0] += 1
+    name = f'HO{_mods[0]}'
+    src = ho_source(spec, name)
+    cls, _ = load_text(ck.workdir, src, name)
+    for flow in ('default', 'mamba'):
+      for inst in range(ninst):
+        case = {'openloop_hostosc': True, 'spec': spec, 'flow': flow, 'cls': name, 'source': src, 'instance': inst}
+        ck.count({'hostosc': spec, 'flow': flow, 'instance': inst}, True)
+        ck.hist('hostosc_outcome', ho_case(ck, case, cls)); ck.hist('hostosc_layout', f"{spec['layout']}/{spec['children']}ch/w{spec['w']}")
+  ck.extra_cov['host_oscillator'] = {'specs': nspec, 'instances_per_flow': ninst, 'flows': ['default', 'mamba']}
+
+# ---------------------------------------------------------------------------------------------
 # two gaps of OpenLoopCLPass found on the pinned tree and repaired in /repo (fix: update_once in a cycle / explicit-constraint cycle);
 # they are ordinary oracles now (PV_C11_OPENLOOP_STRICT=0 turns them back into informational probes)
 # ---------------------------------------------------------------------------------------------
@@ -720,6 +825,11 @@ def replay(ck, data):
   """re-run a recorded open-loop case on the real code with the direct oracle (a); print the wrapper and its IR verdict"""
   case = data.get('case') or {}
   print(data.get('kind'), data.get('signature')); print(str(data.get('detail'))[:1500])
+  if case.get('openloop_hostosc'):
+    n0 = len(ck.violations); print(case['source'])
+    for _ in range(12): ho_case(ck, case, verbose=True)           # which host is compared first follows set order: several instances
+    for v in ck.violations[n0:n0 + 3]: print('VIOLATION', v.kind, v.signature, str(v.detail)[:800])
+    return 1 if len(ck.violations) > n0 else 0
   if case.get('openloop_greenlet'):
     n0 = len(ck.violations); print(case['source']); gl_case(ck, case, verbose=True)
     for v in ck.violations[n0:]: print('VIOLATION', v.kind, v.signature, str(v.detail)[:800])
